@@ -30,8 +30,7 @@ NumOfStr(v) == CASE v = "s1" -> "i1" [] v = "s15" -> "f15" [] OTHER -> "nan"
 RECURSIVE Convert(_, _)
 Convert(k, v) ==
   IF v = "null" THEN NoDefault
-  \* str(value): anything is accepted; repr(remove_string_escapes(v)) escapes a double quote twice: the value changes (sic)
-  ELSE CASE k = "string" -> Val("str", IF v = "squote" THEN "squote-with-backslash" ELSE IF JT(v) = "str" THEN v ELSE "str(" \o v \o ")")
+  ELSE CASE k = "string" -> Val("str", IF JT(v) = "str" THEN v ELSE "str(" \o v \o ")")          \* str(value): anything is accepted; emitted as repr(value)
     [] k = "int" -> IF JT(v) = "str" THEN (IF NumOfStr(v) = "i1" THEN Val("int", "i1") ELSE Err)
                     ELSE IF v = "f10" THEN Val("int", "i1")                                       \* integral float
                     ELSE IF JT(v) = "int" THEN Val("int", v) ELSE Err                           \* bool, 1.5, containers
